@@ -635,18 +635,43 @@ Qed.
 Lemma holds_contiguous k j m a r ac rc : jar_holds k j m a r ac rc -> contiguous k j.
 Proof. intros H. exists (length ac), (length rc). apply H. Qed.
 
+Lemma present_chunks_count mk j ca :
+  (forall i, In (mk i) (names j) <-> i < ca) ->
+  forall fuel i0, i0 <= ca -> ca - i0 <= fuel -> present_chunks mk j i0 fuel = ca - i0.
+Proof.
+  intros Hc. induction fuel as [|fuel IH]; intros i0 H1 H2; [cbn; lia|].
+  cbn [present_chunks]. destruct (Nat.eq_dec i0 ca) as [->|Hne].
+  - assert (E : jar_get (mk ca) j = None) by (apply jar_get_None; rewrite Hc; lia).
+    rewrite E. lia.
+  - assert (Hin : In (mk i0) (names j)) by (apply Hc; lia).
+    apply jar_get_Some_names in Hin. destruct (jar_get (mk i0) j) as [c|] eqn:E; [|congruence].
+    rewrite IH by lia. lia.
+Qed.
+
+Lemma contiguous_present k ca cr j : contiguous_at k ca cr j ->
+  present_chunks CAccChunk j 0 (length j) = ca /\ present_chunks CRefChunk j 0 (length j) = cr.
+Proof.
+  intros (HF & HN & Ha & Hr). split.
+  - rewrite (present_chunks_count CAccChunk j ca Ha); [lia|lia|].
+    pose proof (names_length_ge CAccChunk inj_acc j ca (fun i Hi => proj2 (Ha i) Hi)). lia.
+  - rewrite (present_chunks_count CRefChunk j cr Hr); [lia|lia|].
+    pose proof (names_length_ge CRefChunk inj_ref j cr (fun i Hi => proj2 (Hr i) Hi)). lia.
+Qed.
+
 Lemma load_of_holds k now j m a r ac rc :
   jar_holds k j m a r ac rc -> session_too_old now m = false ->
   load k now j = mkSd m a r ac rc (length ac) (length rc) false false true.
 Proof.
-  intros (_ & Hm & Ha & Hr & Hac & Hrc) Hold. unfold load. rewrite Hm, Ha, Hr, Hac, Hrc, Hold. reflexivity.
+  intros (Hc & Hm & Ha & Hr & Hac & Hrc) Hold. destruct (contiguous_present _ _ _ _ Hc) as [Pa Pr].
+  unfold load. rewrite Hm, Ha, Hr, Hac, Hrc, Hold, Pa, Pr. reflexivity.
 Qed.
 
 Lemma load_of_holds_old k now j m a r ac rc :
   jar_holds k j m a r ac rc -> session_too_old now m = true ->
   load k now j = mkSd [] [] [] (empty_payloads ac) (empty_payloads rc) (length ac) (length rc) false false true.
 Proof.
-  intros (_ & Hm & Ha & Hr & Hac & Hrc) Hold. unfold load. rewrite Hm, Ha, Hr, Hac, Hrc, Hold. reflexivity.
+  intros (Hc & Hm & Ha & Hr & Hac & Hrc) Hold. destruct (contiguous_present _ _ _ _ Hc) as [Pa Pr].
+  unfold load. rewrite Hm, Ha, Hr, Hac, Hrc, Hold, Pa, Pr. reflexivity.
 Qed.
 
 (* ---------------------------------------------------------------- one Save applied to a jar *)
@@ -667,22 +692,59 @@ Proof.
     + rewrite Hold. destruct Hcov as [Hc|[-> Hc]]; [lia|]. cbn in E2. apply Nat.ltb_ge in E2. lia.
 Qed.
 
-Theorem save_holds k j sd ca cr :
-  contiguous_at k ca cr j ->
+(* the chunk cookies PRESENT in the jar form a prefix 0..a-1 / 0..r-1, with any
+   content: undecodable cookies (junk, another key, renamed) allowed under every name *)
+Definition prefix_at (a r : nat) (j : jar) : Prop :=
+  NoDup (names j)
+  /\ (forall i, In (CAccChunk i) (names j) <-> i < a)
+  /\ (forall i, In (CRefChunk i) (names j) <-> i < r).
+
+Lemma contiguous_prefix k a r j : contiguous_at k a r j -> prefix_at a r j.
+Proof. intros (_ & HN & Ha & Hr). repeat split; try apply Ha; try apply Hr; exact HN. Qed.
+
+Lemma In_jar_get n c j : NoDup (names j) -> In (n, c) j -> jar_get n j = Some c.
+Proof.
+  induction j as [|[m d] r IH]; intros Hnd Hin; [destruct Hin|]. cbn [jar_get].
+  cbn [names map fst] in Hnd. inversion Hnd as [|x l Hni Hnd']; subst.
+  destruct Hin as [E|Hin].
+  - inversion E; subst. rewrite cname_eqb_refl. reflexivity.
+  - destruct (cname_eqb n m) eqn:E.
+    + apply cname_eqb_eq in E. subst. exfalso. apply Hni. change (In (fst (m, c)) (map fst r)). apply in_map, Hin.
+    + apply IH; assumption.
+Qed.
+
+(* HEALING.  One Save whose chunk lists cover the jar's chunk cookies (see cov)
+   turns ANY jar whose chunk cookies form a prefix -- decodable or not -- into a
+   contiguous jar that holds exactly the saved session: the main and token
+   cookies are always rewritten, chunk cookies below the new count are rewritten,
+   the others deleted. *)
+Theorem save_heals k j sd ca cr :
+  prefix_at ca cr j ->
   cov ca (length (s_achunks sd)) (s_marked_a sd) (s_jar_a sd) ->
   cov cr (length (s_rchunks sd)) (s_marked_r sd) (s_jar_r sd) ->
   holds_session k (apply_cookies k j (save_cookies sd)) sd.
 Proof.
-  intros (HF & HN & Ha & Hr) Hca Hcr. set (j' := apply_cookies k j (save_cookies sd)).
+  intros (HN & Ha & Hr) Hca Hcr. set (j' := apply_cookies k j (save_cookies sd)).
   assert (Ha' : forall i, In (CAccChunk i) (names j') <-> i < length (s_achunks sd)).
   { intros i. rewrite jar_get_Some_names. unfold j'. rewrite jar_get_after_save. cbn [saved].
     apply (saved_chunk_present k CAccChunk _ _ _ ca); [exact Hca|]. rewrite <- jar_get_Some_names. apply Ha. }
   assert (Hr' : forall i, In (CRefChunk i) (names j') <-> i < length (s_rchunks sd)).
   { intros i. rewrite jar_get_Some_names. unfold j'. rewrite jar_get_after_save. cbn [saved].
     apply (saved_chunk_present k CRefChunk _ _ _ cr); [exact Hcr|]. rewrite <- jar_get_Some_names. apply Hr. }
+  assert (HN' : NoDup (names j')) by (apply apply_cookies_NoDup, HN).
   unfold holds_session, jar_holds. repeat split.
-  - apply apply_cookies_sealed, HF.
-  - apply apply_cookies_NoDup, HN.
+  - apply Forall_forall. intros [n c] Hin. unfold sealed_own. cbn [fst snd].
+    pose proof (In_jar_get n c j' HN' Hin) as Hg. unfold j' in Hg. rewrite jar_get_after_save in Hg.
+    assert (Hnm : In n (names j')) by (change (In (fst (n, c)) (map fst j')); apply in_map, Hin).
+    destruct n as [| | |i|i]; cbn [saved] in Hg.
+    + cbn in Hg. inversion Hg. eauto.
+    + cbn in Hg. inversion Hg. eauto.
+    + cbn in Hg. inversion Hg. eauto.
+    + apply Ha' in Hnm. unfold saved_chunk in Hg. apply Nat.ltb_lt in Hnm. rewrite Hnm in Hg.
+      cbn in Hg. inversion Hg. eauto.
+    + apply Hr' in Hnm. unfold saved_chunk in Hg. apply Nat.ltb_lt in Hnm. rewrite Hnm in Hg.
+      cbn in Hg. inversion Hg. eauto.
+  - exact HN'.
   - apply Ha'.
   - apply Ha'.
   - apply Hr'.
@@ -701,6 +763,13 @@ Proof.
       destruct (Nat.ltb i (length (s_rchunks sd))) eqn:E; [reflexivity|apply Nat.ltb_ge in E; unfold payload in *; lia].
     + cbn [Nat.add]. apply jar_get_None. rewrite Hr'. unfold payload. lia.
 Qed.
+
+Theorem save_holds k j sd ca cr :
+  contiguous_at k ca cr j ->
+  cov ca (length (s_achunks sd)) (s_marked_a sd) (s_jar_a sd) ->
+  cov cr (length (s_rchunks sd)) (s_marked_r sd) (s_jar_r sd) ->
+  holds_session k (apply_cookies k j (save_cookies sd)) sd.
+Proof. intros Hc. apply save_heals. exact (contiguous_prefix _ _ _ _ Hc). Qed.
 
 (* ---------------------------------------------------------------- sessions derived from a request *)
 
@@ -739,7 +808,8 @@ Section RoundTrip.
   Lemma pre_invariant k now j ca cr sd : contiguous_at k ca cr j -> pre k now j sd -> pre_inv ca cr sd.
   Proof.
     intros Hc Hp. induction Hp as [|f s sd Hp IH|t b sd Hp IH|t sd Hp IH|t sd Hp IH].
-    - destruct (contiguous_counts _ _ _ _ Hc) as [Ea Er]. unfold load, pre_inv.
+    - destruct (contiguous_counts _ _ _ _ Hc) as [Ea Er]. destruct (contiguous_present _ _ _ _ Hc) as [Pa Pr].
+      unfold load, pre_inv. rewrite Pa, Pr.
       destruct (session_too_old now (fst (get_session k CMain j))); cbn;
         rewrite ?empty_payloads_length; auto 10.
     - exact IH.
@@ -768,6 +838,37 @@ Section RoundTrip.
   Proof.
     intros (ca & cr & Hc) Hp. destruct (pre_inv_cov _ _ _ (pre_invariant _ _ _ _ _ _ Hc Hp)) as [H1 H2].
     exact (save_holds k j sd ca cr Hc H1 H2).
+  Qed.
+
+  (* HEALING at the level of one request: the jar may hold undecodable cookies
+     under any name (its chunk cookies forming a prefix); once both token setters
+     ran in the request (a completed login or refresh sets both) the Save leaves a
+     contiguous jar holding exactly the saved session. *)
+  Lemma pre_counts k now j ca cr sd : prefix_at ca cr j -> pre k now j sd ->
+    s_live sd = true /\ s_jar_a sd = ca /\ s_jar_r sd = cr.
+  Proof.
+    intros (HN & Ha & Hr) Hp. induction Hp as [|f s sd Hp IH|t b sd Hp IH|t sd Hp IH|t sd Hp IH].
+    - assert (Pa : present_chunks CAccChunk j 0 (length j) = ca).
+      { rewrite (present_chunks_count CAccChunk j ca Ha); [lia|lia|].
+        pose proof (names_length_ge CAccChunk inj_acc j ca (fun i Hi => proj2 (Ha i) Hi)). lia. }
+      assert (Pr : present_chunks CRefChunk j 0 (length j) = cr).
+      { rewrite (present_chunks_count CRefChunk j cr Hr); [lia|lia|].
+        pose proof (names_length_ge CRefChunk inj_ref j cr (fun i Hi => proj2 (Hr i) Hi)). lia. }
+      unfold load. rewrite Pa, Pr. destruct (session_too_old now (fst (get_session k CMain j))); cbn; auto.
+    - exact IH.
+    - exact IH.
+    - destruct IH as (Hl & Ha' & Hr'). unfold set_access.
+      destruct (store_token nchunks t (s_acc sd)) as [a ch]. cbn. auto.
+    - destruct IH as (Hl & Ha' & Hr'). unfold set_refresh.
+      destruct (store_token nchunks t (s_ref sd)) as [a ch]. cbn. auto.
+  Qed.
+
+  Theorem save_heals_pre k now j sd ca cr :
+    prefix_at ca cr j -> pre k now j sd -> s_marked_a sd = true -> s_marked_r sd = true ->
+    holds_session k (apply_cookies k j (save_cookies sd)) sd.
+  Proof.
+    intros Hpf Hp Hma Hmr. destruct (pre_counts _ _ _ _ _ _ Hpf Hp) as (_ & Ea & Er).
+    apply (save_heals k j sd ca cr Hpf); right; split; try assumption; lia.
   Qed.
 
   Theorem save_load_roundtrip k now now' j sd :
